@@ -70,6 +70,12 @@ CHECKS = {
                 text="for transfer (15 geometries), remove and fill_to (9 selection forms), directly and as recipe steps: every "
                      "addressed well equals the stand-alone operation on a free-standing copy, every other well is "
                      "identical to the input; 12 non-conforming shape pairs are rejected with ValueError."),
+    'C08': dict(engine=E1, design='§4 C08',
+                technique="symbolic execution of Recipe step adders + bake vs an eager interpreter over the direct operations, all programs up to the length bound; z3 decides path feasibility of the joint execution",
+                text="for every program of <= 2 steps (thorough: + 500 seeded 3-step programs) over 19 step templates with all "
+                     "quantities symbolic: bake raises iff the eager fold raises, the result dictionary has exactly the "
+                     "declared and created names, and every container/well has the same substances, amounts and volume "
+                     "as the fold; adding steps changes nothing before bake."),
     'C02': dict(engine=E1, design='§4 C02',
                 technique="symbolic execution of Container.transfer/Plate.transfer with z3 (QF_NRA/LRA), differential vs independent unit table",
                 text="size of the aliquot (in the unit of q), uniformity (cross-multiplied ratios) and destination gain "
